@@ -136,7 +136,7 @@ def frac_array(name, shape, values):
 def case_list(tier):
     """Every (kind, family, details) configuration within the bound."""
     kmax = 4 if tier == "quick" else 6
-    shapes = [(2,), (2, 2)] if tier == "quick" else [(2,), (2, 2), (3,), (2, 3)]
+    shapes = [(2,), (2, 2), (2, 1), (1, 2)] if tier == "quick" else [(2,), (2, 2), (2, 1), (1, 2), (3,), (2, 3), (1, 1)]
     cases = []
     for kind in ("numpy", "xarray"):
         for op in REDUCTIONS:
@@ -146,7 +146,7 @@ def case_list(tier):
                         continue
                     if op in ("min", "max") and k >= 3:
                         # every element forks on the order of its k values: keep the product of orders small
-                        if shape != (2,):
+                        if shape not in ((2,),):
                             continue
                         shape = (2,) if k == 3 else (1,)
                     cases.append((kind, "multi", op, k, shape))
@@ -356,7 +356,7 @@ class Backends(Harness):
         hr.rule, hr.assumptions, hr.outside = self.rule, list(self.assumptions), list(self.outside)
         hr.functions = repo_env.describe(self.functions())
         cases, marked = case_list(tier)
-        hr.bounds = {"arguments": "1..4" if tier == "quick" else "1..6", "shapes": "(2,), (2,2)" if tier == "quick" else "(2,), (2,2), (3,), (2,3)",
+        hr.bounds = {"arguments": "1..4" if tier == "quick" else "1..6", "shapes": "(2,), (2,2), (2,1), (1,2)" if tier == "quick" else "(2,), (2,2), (2,1), (1,2), (3,), (2,3), (1,1)",
                      "batch_partitions_of": "2..4 arguments" if tier == "quick" else "2..5 arguments", "marked_batchable_in_code": marked, "solver_timeout_ms": E.TIMEOUT_MS}
         ctx = mp.get_context("fork")
         with ctx.Pool(min(jobs, 16)) as pool:
